@@ -952,6 +952,27 @@ func genDispatchT(g *Gen, w *bufio.Writer, t *fTables) {
 			}
 		}
 	}
+	// a recycled Message: the body of another message of the family is still attached (before and behind the named body in the
+	// family struct); the header's message type decides
+	for _, d := range t.Dispatch {
+		for i, c := range d.Decode {
+			m := t.msg(c.Msg)
+			if m == nil {
+				continue
+			}
+			for _, oi := range []int{(i + 1) % len(d.Decode), (i + len(d.Decode) - 1) % len(d.Decode), g.Intn(len(d.Decode))} {
+				oc := d.Decode[oi]
+				om := t.msg(oc.Msg)
+				if om == nil || oc.Msg == c.Msg {
+					continue
+				}
+				man := mandatory(g, m, c.Const, d.TypeIndex, epdOf(d.Family))
+				oman := mandatory(g, om, oc.Const, d.TypeIndex, epdOf(d.Family))
+				wire := renderMsg(m, man, nil)
+				fmt.Fprintf(w, "enc2 %s hdr=%s %s %s %s %s\n", d.Family, hexs(wire[:d.HeaderLen]), m.Name, fieldsStr(man, nil), om.Name, fieldsStr(oman, nil))
+			}
+		}
+	}
 	// a header that names no known type although a body is attached (all-zero header, zero type, zero discriminator): an error,
 	// whatever the body says about itself
 	for _, d := range t.Dispatch {
